@@ -74,7 +74,7 @@ theorem ext_barkAtMemberAttr (n : Nat) (name : String) : Ext (barkAtMemberAttr n
 /-- R1 — "no trait instruction": reported whatever else the input contains -/
 theorem C15_complete_R1_stage (input : DataType) (h : input.attrs.attrs = []) :
     "At least one trait instruction is expected." ∈
-      validateErrorInstrs (match input with | .enum _ => true | .struct _ => false) input.attrs.errorInstrs
+      validateErrorInstrs input.isEnum input.attrs.errorInstrs
         (if input.attrs.attrs.isEmpty then ["At least one trait instruction is expected."] else []) := by
   apply ext_validateErrorInstrs
   simp [h]
@@ -231,15 +231,35 @@ theorem ext_validateParentAttrs (named : Bool) (pas : List ParentAttr) (byKind :
       · exact hm
     · exact hm
 
-theorem ext_checkChildErrors (ca : ChildAttr) (sa : DataTypeAttrs) (tp : TypePath) : Ext (checkChildErrors ca sa tp) := by
+theorem ext_checkChildPathErrors (cp : ChildPath) (sa : DataTypeAttrs) (tp : TypePath) : Ext (checkChildPathErrors cp sa tp) := by
   intro es m hm
-  unfold checkChildErrors
+  unfold checkChildPathErrors
   refine mem_foldl_of_mem _ _ _ _ (fun path es hm => ?_) hm
   split
   · split
     · exact mem_insert_of_mem _ _ _ hm
     · exact hm
   · exact mem_insert_of_mem _ _ _ hm
+
+theorem ext_checkChildErrors (ca : ChildAttr) (sa : DataTypeAttrs) (tp : TypePath) : Ext (checkChildErrors ca sa tp) :=
+  ext_checkChildPathErrors ca.childPath sa tp
+
+theorem ext_ghostChildPass (dta : DataTypeAttrs) (x : TraitAttrCore × Kind) : Ext (fun es => ghostChildPass dta es x) := by
+  intro es m hm
+  unfold ghostChildPass
+  simp only
+  split
+  · split
+    · exact mem_foldl_of_mem _ _ _ m (fun cp es hm => ext_checkChildPathErrors cp dta x.1.ty es m hm) hm
+    · exact hm
+  · exact hm
+
+theorem ext_ghostPatternPass (msg : String) (g : GhostData) : Ext (ghostPatternPass msg g) := by
+  intro es m hm
+  unfold ghostPatternPass
+  split
+  · exact mem_insert_of_mem _ _ _ hm
+  · exact hm
 
 theorem ext_memberNameCheck (f : Field) (ty : TypePath) (k : Kind) (msg : String) : Ext (memberNameCheck f ty k msg) := by
   intro es m hm
@@ -304,9 +324,11 @@ theorem ext_validateFields (input : Struct) (byKind : List (TraitAttrCore × Kin
   simp only
   split
   · refine mem_foldl_of_mem _ _ _ m (fun x es hm => ext_namePass input x.1 x.2 es m hm) ?_
+    refine mem_foldl_of_mem _ _ _ m (fun x es hm => ext_ghostChildPass input.attrs x es m hm) ?_
     refine mem_foldl_of_mem _ _ _ m (fun ca es hm => ext_childPass _ _ _ ca es m hm) ?_
     exact mem_foldl_of_mem _ _ _ m (fun field es hm => ext_ghostDefaultPass _ field es m hm) hm
-  · refine mem_foldl_of_mem _ _ _ m (fun ca es hm => ext_childPass _ _ _ ca es m hm) ?_
+  · refine mem_foldl_of_mem _ _ _ m (fun x es hm => ext_ghostChildPass input.attrs x es m hm) ?_
+    refine mem_foldl_of_mem _ _ _ m (fun ca es hm => ext_childPass _ _ _ ca es m hm) ?_
     exact mem_foldl_of_mem _ _ _ m (fun field es hm => ext_ghostDefaultPass _ field es m hm) hm
 
 theorem ext_variantNamePass (v : Variant) (a : TraitAttr) (k : Kind) : Ext (variantNamePass v a k) := by
@@ -359,8 +381,26 @@ theorem ext_validateMember (input : DataType) (isEnum : Bool) (tps : List TypePa
     · apply ext_validateDedicatedMemberAttrs
       apply ext_validateDedicatedMemberAttrs
       apply ext_validateDedicatedMemberAttrs
+      refine mem_foldl_of_mem _ _ _ m (fun g es hm => ext_ghostPatternPass _ g es m hm) ?_
       apply ext_barkAtMemberAttr
       exact h2
+
+theorem ext_validateEnd (input : DataType) (byKind : List (TraitAttrCore × Kind)) (tps : List TypePath) :
+    Ext (validateEnd input byKind tps) := by
+  intro es m hm
+  unfold validateEnd
+  cases input with
+  | struct s =>
+    simp only
+    apply ext_validateFields
+    exact mem_foldl_of_mem _ _ _ m (fun g es hm => ext_ghostPatternPass _ g es m hm) hm
+  | enum e =>
+    simp only
+    refine mem_foldl_of_mem _ _ _ m (fun v es hm => ext_validateVariantFields v _ es m hm) ?_
+    exact mem_foldl_of_mem _ _ _ m (fun g es hm => by
+      unfold enumGhostIdentPass
+      repeat' split
+      all_goals first | exact mem_insert_of_mem _ _ _ hm | exact hm) hm
 
 theorem ext_updatePass (input : DataType) (x : TraitAttrCore × Kind) (es : Errors) (m : String) (hm : m ∈ es) :
     m ∈ updatePass input es x := by
@@ -371,7 +411,7 @@ theorem ext_updatePass (input : DataType) (x : TraitAttrCore × Kind) (es : Erro
 /-- everything that happens in `validate` after the two struct-attribute stages only adds diagnostics -/
 theorem validate_tail_ext (input : DataType) (es : Errors) (m : String) (hm : m ∈ es) :
     m ∈ (let attrs := input.attrs
-         let isEnum := match input with | .enum _ => true | .struct _ => false
+         let isEnum := input.isEnum
          let typePaths := attrs.attrs.map (·.core.ty)
          let es := validateKinds.foldl (fun es k => validateGhostAttrs k attrs.ghostsAttrs typePaths es) es
          let es := validateChildParentsAttrs attrs.childParentsAttrs typePaths es
@@ -379,11 +419,7 @@ theorem validate_tail_ext (input : DataType) (es : Errors) (m : String) (hm : m 
          let byKind := attrsByKind attrs
          let es := byKind.foldl (updatePass input) es
          let es := input.members.foldl (validateMember input isEnum typePaths byKind) es
-         match input with
-         | .struct s => validateFields s byKind typePaths es
-         | .enum e =>
-           let es := (attrs.ghostsAttrs.flatMap (fun (x : GhostsAttr) => x.attr.ghostData)).foldl (fun es g => enumGhostIdentPass g es) es
-           e.variants.foldl (fun es v => validateVariantFields v attrs es) es) := by
+         validateEnd input byKind typePaths es) := by
   simp only
   have h1 := mem_foldl_of_mem validateKinds (fun es k => validateGhostAttrs k input.attrs.ghostsAttrs (input.attrs.attrs.map (·.core.ty)) es) es m
     (fun k es hm => ext_validateGhostAttrs _ _ _ es m hm) hm
@@ -391,17 +427,9 @@ theorem validate_tail_ext (input : DataType) (es : Errors) (m : String) (hm : m 
   have h3 := ext_validateWhereAttrs input.attrs.whereAttrs (input.attrs.attrs.map (·.core.ty)) _ m h2
   have h3' := mem_foldl_of_mem (attrsByKind input.attrs) (updatePass input) _ m (fun x es hm => ext_updatePass input x es m hm) h3
   have h4 := mem_foldl_of_mem input.members
-    (validateMember input (match input with | .enum _ => true | .struct _ => false) (input.attrs.attrs.map (·.core.ty)) (attrsByKind input.attrs)) _ m
+    (validateMember input input.isEnum (input.attrs.attrs.map (·.core.ty)) (attrsByKind input.attrs)) _ m
     (fun member es hm => ext_validateMember _ _ _ _ member es m hm) h3'
-  cases input with
-  | struct s => exact ext_validateFields _ _ _ _ _ h4
-  | enum e =>
-    have h5 := mem_foldl_of_mem ((DataType.enum e).attrs.ghostsAttrs.flatMap (fun x => x.attr.ghostData)) (fun es g => enumGhostIdentPass g es) _ m
-      (fun g es hm => by
-        unfold enumGhostIdentPass
-        repeat' split
-        all_goals first | exact mem_insert_of_mem _ _ _ hm | exact hm) h4
-    exact mem_foldl_of_mem _ _ _ m (fun v es hm => ext_validateVariantFields v _ es m hm) h5
+  exact ext_validateEnd input _ _ _ m h4
 
 theorem mem_foldl_of_step {α} (xs : List α) (step : Errors → α → Errors) (es : Errors) (m : String) (x : α) (hx : x ∈ xs)
     (hext : ∀ y es, m ∈ es → m ∈ step es y) (hstep : ∀ es, m ∈ step es x) : m ∈ xs.foldl step es := by
@@ -511,21 +539,13 @@ theorem C15_complete_R4_where_validate (input : DataType) (wa : WhereAttr) (tp :
     (validateKinds.foldl (fun es k => validateGhostAttrs k input.attrs.ghostsAttrs (input.attrs.attrs.map (·.core.ty)) es)
       (validateKinds.foldl (fun es k => validateStructAttrs (input.attrs.iterForKindCore k true) true es)
         (validateKinds.foldl (fun es k => validateStructAttrs (input.attrs.iterForKindCore k false) false es)
-          (validateErrorInstrs (match input with | .enum _ => true | .struct _ => false) input.attrs.errorInstrs
+          (validateErrorInstrs input.isEnum input.attrs.errorInstrs
             (if input.attrs.attrs.isEmpty then ["At least one trait instruction is expected."] else []))))))
   have h3' := mem_foldl_of_mem (attrsByKind input.attrs) (updatePass input) _ _ (fun x es hm => ext_updatePass input x es _ hm) h3
   have h4 := mem_foldl_of_mem input.members
-    (validateMember input (match input with | .enum _ => true | .struct _ => false) (input.attrs.attrs.map (·.core.ty)) (attrsByKind input.attrs)) _ _
+    (validateMember input input.isEnum (input.attrs.attrs.map (·.core.ty)) (attrsByKind input.attrs)) _ _
     (fun member es hm => ext_validateMember _ _ _ _ member es _ hm) h3'
-  cases input with
-  | struct s => exact ext_validateFields _ _ _ _ _ h4
-  | enum e =>
-    have h5 := mem_foldl_of_mem ((DataType.enum e).attrs.ghostsAttrs.flatMap (fun x => x.attr.ghostData)) (fun es g => enumGhostIdentPass g es) _ _
-      (fun g es hm => by
-        unfold enumGhostIdentPass
-        repeat' split
-        all_goals first | exact mem_insert_of_mem _ _ _ hm | exact hm) h4
-    exact mem_foldl_of_mem _ _ _ _ (fun v es hm => ext_validateVariantFields v _ es _ hm) h5
+  exact ext_validateEnd input _ _ _ _ h4
 
 /-- whatever the update stage reports for one (instruction, kind) pair is in the final list -/
 theorem update_stage_reported (input : DataType) (x : TraitAttrCore × Kind) (hx : x ∈ attrsByKind input.attrs) (m : String)
@@ -538,21 +558,13 @@ theorem update_stage_reported (input : DataType) (x : TraitAttrCore × Kind) (hx
         (validateKinds.foldl (fun es k => validateGhostAttrs k input.attrs.ghostsAttrs (input.attrs.attrs.map (·.core.ty)) es)
           (validateKinds.foldl (fun es k => validateStructAttrs (input.attrs.iterForKindCore k true) true es)
             (validateKinds.foldl (fun es k => validateStructAttrs (input.attrs.iterForKindCore k false) false es)
-              (validateErrorInstrs (match input with | .enum _ => true | .struct _ => false) input.attrs.errorInstrs
+              (validateErrorInstrs input.isEnum input.attrs.errorInstrs
                 (if input.attrs.attrs.isEmpty then ["At least one trait instruction is expected."] else [])))))))
     m x hx (fun y es hm => ext_updatePass input y es m hm) hstep
   have h4 := mem_foldl_of_mem input.members
-    (validateMember input (match input with | .enum _ => true | .struct _ => false) (input.attrs.attrs.map (·.core.ty)) (attrsByKind input.attrs)) _ _
+    (validateMember input input.isEnum (input.attrs.attrs.map (·.core.ty)) (attrsByKind input.attrs)) _ _
     (fun member es hm => ext_validateMember _ _ _ _ member es _ hm) h3'
-  cases input with
-  | struct s => exact ext_validateFields _ _ _ _ _ h4
-  | enum e =>
-    have h5 := mem_foldl_of_mem ((DataType.enum e).attrs.ghostsAttrs.flatMap (fun x => x.attr.ghostData)) (fun es g => enumGhostIdentPass g es) _ _
-      (fun g es hm => by
-        unfold enumGhostIdentPass
-        repeat' split
-        all_goals first | exact mem_insert_of_mem _ _ _ hm | exact hm) h4
-    exact mem_foldl_of_mem _ _ _ _ (fun v es hm => ext_validateVariantFields v _ es _ hm) h5
+  exact ext_validateEnd input _ _ _ _ h4
 
 /-- C15 (struct update syntax outside a struct expression, end to end): `..expr` on an instruction that requests an
     into_existing conversion is reported, whichever of the instructions it is and whatever else the input holds -/
